@@ -209,7 +209,8 @@ def check_hazards(rule, kind, root=None):
                 continue
             for path in paths:
                 npaths += 1
-                defined = set()
+                defined = set()  # lanes holding a value this clause put there (zero fill included)
+                data = set()  # lanes a write actually covered
                 out_written = False
                 imm_clobbered = False
                 idx = [i for i in path if not isinstance(i, str)]
@@ -246,14 +247,19 @@ def check_hazards(rule, kind, root=None):
                             out_written = True
                             if o.lane is not None:
                                 defined.update(o.lanes())
+                                data.update(o.lanes())
                             elif o in e.merges:
                                 pass  # rmw keeps definedness
                             else:
                                 defined.update((0, 1, 2, 3))  # scalar and 64-bit writes zero the rest
+                                # ... and for an interval / a vector of samples a zero is not a result, so only the
+                                # lanes the write covers count at the end (for a gradient, zero is a derivative)
+                                data.clear()
+                                data.update((0, 1, 2, 3) if kind == "grad_slice" else o.lanes())
                         if o.name == ir and i >= prelen:
                             imm_clobbered = True
                 if outp and name in op_builders(builders) and not b.helper_calls or (outp and name.startswith("call_fn")):
-                    miss = sorted(need - defined)
+                    miss = sorted(need - data)
                     if miss and idx:
                         via = [repr(ins[i]) for i in idx if X.effect(ins[i]).kind in ("jmp", "jcc")]
                         found.add((b.fn["ln"], "undef", "the path through %s leaves lane(s) %s of the output register `%s` unwritten" % (" , ".join(via[:4]) or "the straight line", miss, outp)))
@@ -377,6 +383,8 @@ def check_choice_protocol(rule, kind, root=None):
                     other = "T:%s" % (rhs_n if ored[0] == "CHOICE_LEFT" else lhs_n)
                     if last_out is None:
                         found.add((b.fn["ln"], "%s: records %s but never writes the output" % (pdesc, ored[0])))
+                    elif not last_out[1] and not (name == "build_and" and ored[0] == "CHOICE_LEFT" and last_out[0].mnem == "movi"):
+                        found.add((last_out[0].ln, "%s: records %s but the output is the constant `%r`; only `and` with a left operand that is exactly zero may answer with a constant (zero), and that is the Left choice" % (pdesc, ored[0], last_out[0])))
                     elif other in last_out[1] or (want not in last_out[1] and last_out[1]):
                         found.add((last_out[0].ln, "%s: records %s but the output is taken from %s (expected `%s` only)" % (pdesc, ored[0], last_out[1], want[2:])))
             elif ored[0] == "CHOICE_BOTH" and flag:
@@ -395,9 +403,11 @@ def check_choice_protocol(rule, kind, root=None):
 
 
 def check_strictness(rule, root=None):
-    """after `fcmp a, b`: mi = a < b, gt = a > b (both false on NaN and on equality); ls / ge / le / pl / hi would
-    also decide on equality or on unordered operands, which the interpreter's strict `<` / `>` do not"""
-    strict = {"mi", "gt", "lt", "vs", "vc", "ne", "eq"}
+    """after `fcmp a, b` the conditions mi (a < b) and gt (a > b) are false for equal and for unordered
+    operands, like the interpreter's strict `<` / `>`; ge / ls / eq / pl are also taken on equality and
+    lt / le / hi / pl / ne on a NaN - unless a `b.vs` earlier on the path already sent NaNs elsewhere"""
+    ordered_strict = {"mi", "gt", "lo", "cc"}
+    strict_or_unordered = {"lt", "hi"}  # strict, but also true for unordered operands
     for kind in TRACING:
         builders = X.load_builders(X.path_of(kind), root)
         for name in ("build_min", "build_max"):
@@ -415,12 +425,25 @@ def check_strictness(rule, root=None):
             for x in bad:
                 rule.bad("a64|%s|%s|%s" % (kind, name, x.mnem), "aarch64 %s %s decides with the non-strict `%r`; the interpreter's min / max choices use strict comparisons, so the two disagree when the operands touch" % (kind, name, x), "%s:%d" % (X.path_of(kind), x.ln))
             fc = [x for x in cm if x.mnem == "fcmp"]
-            for x in js:
+            nan_screened = False
+            for x in ins:
+                if x.label is not None or not x.mnem.startswith("b."):
+                    if x.mnem == "fcmp":
+                        nan_screened = False
+                    continue
                 cc = x.mnem[2:]
-                if fc and cc not in strict:
-                    rule.bad("a64|%s|%s|b.%s" % (kind, name, cc), "aarch64 %s %s branches on `%s` after fcmp, which is also taken for equal or unordered operands; the interpreter decides with a strict comparison" % (kind, name, x.mnem), "%s:%d" % (X.path_of(kind), x.ln))
-                else:
+                if not fc:
                     rule.ok("aarch64 %s %s `%r`" % (kind, name, x))
+                    continue
+                if cc == "vs":
+                    nan_screened = True
+                    rule.ok("aarch64 %s %s `%r` screens unordered operands" % (kind, name, x))
+                elif cc in ordered_strict or (cc in strict_or_unordered and nan_screened) or cc in ("ne", "eq", "vc") and False:
+                    rule.ok("aarch64 %s %s `%r`" % (kind, name, x))
+                elif cc in strict_or_unordered:
+                    rule.bad("a64|%s|%s|b.%s" % (kind, name, cc), "aarch64 %s %s branches on `%s` after fcmp: that condition is also true when an operand is NaN, so a NaN operand records a decided choice where the interpreter records Both (use mi / gt, or screen with b.vs first)" % (kind, name, x.mnem), "%s:%d" % (X.path_of(kind), x.ln))
+                else:
+                    rule.bad("a64|%s|%s|b.%s" % (kind, name, cc), "aarch64 %s %s branches on `%s` after fcmp, which is also taken for equal (or unordered) operands; the interpreter decides with a strict comparison" % (kind, name, x.mnem), "%s:%d" % (X.path_of(kind), x.ln))
 
 
 # ---------------------------------------------------------------------------
@@ -477,7 +500,15 @@ def check_simple_builders(rule, kind, root=None, only=None):
             elem, nb = MOVE[kind]
             regp = {"build_load": params[0], "build_store": params[1], "build_input": params[0], "build_output": params[0], "build_copy": None}[name]
             wants = {"build_load": ("ldr",), "build_input": ("ldr",), "build_store": ("str",), "build_output": ("str",), "build_copy": ("mov", "fmov")}[name]
-            if x.mnem not in wants or any(o.nbytes != nb for o in vecs):
+            if name == "build_copy":
+                # a register-to-register copy may move more than the value occupies, and `mov Vd, Vn` is `orr Vd, Vn, Vn`
+                is_copy = x.mnem in ("mov", "fmov") and len(vecs) == 2 or (x.mnem == "orr" and len(vecs) == 3 and vecs[1].name == vecs[2].name)
+                if is_copy and x.mnem == "orr":
+                    vecs = vecs[:2]
+                bad_move = not is_copy or any(o.nbytes < nb or o.lane is not None for o in vecs)
+            else:
+                bad_move = x.mnem not in wants or any(o.nbytes != nb for o in vecs)
+            if bad_move:
                 rule.bad(key + "|width", "aarch64 %s %s moves data with `%r`; a %s value is %d bytes and needs `%s` on a %s register" % (kind, name, x, kind, nb, "/".join(wants), elem.upper()), "%s:%d" % (p, x.ln))
             elif regp is not None and [o.name for o in vecs] != ["T:%s" % regp]:
                 rule.bad(key + "|reg", "aarch64 %s %s moves %s, expected its register parameter `%s`" % (kind, name, [o.name for o in vecs], regp), "%s:%d" % (p, x.ln))
@@ -1008,3 +1039,158 @@ def check_constants(rule, root=None):
             else:
                 rule.ok("aarch64 %s %s: constants %s agree with the x86_64 siblings" % (kind, name, sorted(mine)), file=p, line=b.fn["ln"])
     return n
+
+
+# ---------------------------------------------------------------------------
+# 9. widths, immediates, the fixed part of the frame
+
+
+def check_full_width(rule, kind, root=None):
+    """the four-lane evaluators (four samples; value + three derivatives) hold data in all 128 bits of a
+    register: a 64-bit arrangement (.s2 / .b8) computes - or zeroes - only half of it"""
+    if kind not in BULK:
+        return
+    p = X.path_of(kind)
+    builders = X.load_builders(p, root)
+    for name, b in sorted(op_builders(builders).items()):
+        half = [(x, o) for x in X.flat_ins(b) for o in x.ops if o.kind == "vec" and o.form == "v" and o.lane is None and o.nbytes == 8]
+        if half:
+            x, o = half[0]
+            rule.bad("a64|%s|%s|half-width" % (kind, name), "aarch64 %s %s: `%r` works on a 64-bit arrangement (`%s`): lanes 2 and 3 of a %s value are not computed (a 64-bit write clears them)" % (kind, name, x, o.text, kind), "%s:%d" % (p, x.ln))
+        elif X.flat_ins(b):
+            rule.ok("aarch64 %s %s uses 128-bit arrangements only" % (kind, name), file=p, line=b.fn["ln"])
+
+
+def _mask_of(text):
+    """bits of `imm_u32` an operand expression can carry: `imm_u32 >> 16` (with lsl 16) / `imm_u32 & 0xFFFF`"""
+    t = re.sub(r"(?<=[0-9a-fA-FxX])_(?=[0-9a-fA-F])", "", text.replace(" ", ""))
+    m = re.fullmatch(r"\(?(\w+)>>(\d+)\)?", t)
+    if m:
+        return m.group(1), ("shr", int(m.group(2)))
+    m = re.fullmatch(r"\(?(\w+)&(0x[0-9a-fA-F]+|\d+)\)?", t)
+    if m:
+        return m.group(1), ("and", int(m.group(2), 0))
+    return None, None
+
+
+def check_load_imm(rule, kind, root=None):
+    """load_imm picks the shortest movz / movk sequence from tests on the constant's bit pattern.  Whatever
+    path is taken, the bits it does not load must be known to be zero from the tests that led there."""
+    p = X.path_of(kind)
+    builders = X.load_builders(p, root)
+    b = builders.get("load_imm")
+    if b is None:
+        rule.lost("aarch64 %s load_imm" % kind)
+        return
+    ir = str(X.imm_reg(root))
+    lets = {A.binding_name(s_["pat"]): str(A.ftxt(s_["init"])) for s_ in A.find(b.fn["body"], "Let") if s_.get("init") is not None and A.binding_name(s_["pat"])}
+    bits = [n for n, t in lets.items() if t.endswith(".to_bits()")]
+    if len(bits) != 1:
+        rule.lost("aarch64 %s load_imm: `let imm_u32 = imm.to_bits()`" % kind)
+        return
+    var = bits[0]
+    n = 0
+    for m, _h, ins in b.blocks:
+        conds = [re.sub(r"(?<=[0-9a-fA-FxX])_(?=[0-9a-fA-F])", "", c.replace(" ", "")) for c in (A.enclosing_conds(b.fn["body"], m) or [])]
+        zero = 0
+        for c in conds:
+            c = c.strip("()")
+            mm = re.fullmatch(r"\(?%s&(0x[0-9a-fA-F]+|\d+)\)?==0" % re.escape(var), c) or re.fullmatch(r"0==\(?%s&(0x[0-9a-fA-F]+|\d+)\)?" % re.escape(var), c)
+            if mm:
+                zero |= int(mm.group(1), 0)
+        loaded = 0
+        ok_shape = True
+        gpr = None
+        for x in ins:
+            if x.label is not None:
+                continue
+            if x.mnem in ("movz", "movk", "mov") and len(x.ops) >= 2 and x.ops[0].kind == "gpr" and x.ops[1].kind == "imm":
+                v, how = _mask_of(x.ops[1].text)
+                sh = 0
+                if len(x.ops) == 3 and x.ops[2].kind == "shift" and x.ops[2].op == "lsl":
+                    sh = int(x.ops[2].amount, 0)
+                if v != var or how is None:
+                    ok_shape = False
+                    continue
+                if how[0] == "shr":
+                    part = ((0xFFFFFFFF >> how[1]) & 0xFFFF) << sh
+                    if sh != how[1]:
+                        ok_shape = False  # the field is put back somewhere else than it was taken from
+                else:
+                    part = (how[1] & 0xFFFF) << sh
+                    if sh != 0 and how[1] >> sh == 0:
+                        ok_shape = False
+                if x.mnem != "movk":
+                    loaded = 0
+                loaded |= part
+                gpr = x.ops[0].name
+            elif x.mnem in ("fmov", "dup") and len(x.ops) == 2 and x.ops[0].kind == "vec" and x.ops[0].name == ir and x.ops[1].kind == "gpr":
+                if x.ops[1].name != gpr:
+                    ok_shape = False
+            else:
+                ok_shape = False
+        n += 1
+        missing = (~loaded) & 0xFFFFFFFF & ~zero
+        where = "%s:%d" % (p, m["ln"])
+        if not ok_shape:
+            rule.bad("a64|%s|load_imm|shape" % kind, "aarch64 %s load_imm: a variant is not a movz / movk sequence over fields of `%s` moved into v%s" % (kind, var, ir), where)
+        elif missing:
+            rule.bad("a64|%s|load_imm|bits" % kind, "aarch64 %s load_imm: under `%s` only the bits %#010x of the constant are loaded, but the tests on that path only establish that the bits %#010x are zero: bits %#010x are dropped (e.g. 1000.5 = 0x447A2000 would load as 1000.0)" % (kind, " && ".join(conds) or "no condition", loaded, zero, missing), where)
+        else:
+            rule.ok("aarch64 %s load_imm under `%s`: loads bits %#010x, the rest are known zero" % (kind, " && ".join(conds) or "no condition", loaded), file=p, line=m["ln"])
+    # the vector form must fill every lane the evaluator computes with
+    dups = [x for x in X.flat_ins(b) if x.ops and x.ops[0].kind == "vec" and x.ops[0].name == ir]
+    want = {"point": 4, "interval": 8, "float_slice": 16, "grad_slice": 4}[kind]
+    for x in dups:
+        o = x.ops[0]
+        if o.nbytes < want:
+            rule.bad("a64|%s|load_imm|width" % kind, "aarch64 %s load_imm: `%r` fills %d bytes of the immediate register; clauses of this evaluator read %d" % (kind, x, o.nbytes, want), "%s:%d" % (p, x.ln))
+    return n
+
+
+def check_fixed_area(rule, kind, root=None):
+    """spill slots start at sp + STACK_SIZE: every fixed slot the prologue, the epilogue and the call helpers
+    use must end at or below it, and two different registers' save slots must not overlap"""
+    p = X.path_of(kind)
+    builders = X.load_builders(p, root)
+    ss = None
+    for c in A.find_items(p, "Const", "STACK_SIZE", root):
+        ss = A.lit_value(c["e"])
+    if ss is None:
+        rule.lost("aarch64 %s STACK_SIZE" % kind)
+        return
+    slots = {}
+    worst = None
+    for name, b in builders.items():
+        for x in X.flat_ins(b):
+            e = X.effect(x)
+            if e.kind not in ("load", "store"):
+                continue
+            mem = (e.mem_reads + e.mem_writes)[0]
+            if mem.base != "sp" or mem.off is None:
+                continue
+            off = mem.off
+            for o in [q for q in x.ops if q.kind in ("vec", "gpr")]:
+                w = o.nbytes if o.kind == "vec" else 8
+                if e.kind == "store":
+                    slots.setdefault((off, w), set()).add(o.text if o.kind == "gpr" else "%s%s" % (o.elem if o.form == "s" else "v", o.name))
+                if worst is None or off + w > worst[0]:
+                    worst = (off + w, x, name)
+                off += w
+    if worst is None:
+        rule.lost("aarch64 %s: fixed stack slots" % kind)
+        return
+    if worst[0] > ss:
+        rule.bad("a64|%s|frame|fixed-area" % kind, "aarch64 %s: `%r` (in %s) uses the fixed slot ending at sp + %#x, but spill slot 0 starts at sp + STACK_SIZE = %#x: the first spilled value and this save overwrite each other" % (kind, worst[1], worst[2], worst[0], int(ss)), "%s:%d" % (p, worst[1].ln))
+    else:
+        rule.ok("aarch64 %s: the fixed slots end at sp + %#x <= STACK_SIZE (%#x)" % (kind, worst[0], int(ss)), file=p)
+    ranges = sorted(slots.items())
+    for i, ((o1, w1), r1) in enumerate(ranges):
+        for (o2, w2), r2 in ranges[i + 1:]:
+            if o2 < o1 + w1 and (r1 != r2 or (o1, w1) != (o2, w2)):
+                # the same bytes used for two registers: legitimate only if never live together (the GPR backups
+                # and the vector saves of one helper are); report GPR backup vs vector save
+                g1 = any(t.startswith("x") for t in r1)
+                g2 = any(t.startswith("x") for t in r2)
+                if g1 != g2:
+                    rule.bad("a64|%s|frame|overlap" % kind, "aarch64 %s: the save slot of %s at sp + %#x overlaps the slot of %s at sp + %#x" % (kind, sorted(r1), o1, sorted(r2), o2), p)
